@@ -111,7 +111,8 @@ def _run_child(jobs, wfd):
     for job in jobs:
         tmo = int(job.get("timeout", 30))
         signal.alarm(tmo)
-        faulthandler.dump_traceback_later(max(1, tmo - 1), exit=False)
+        # (no faulthandler.dump_traceback_later here: it starts a watchdog thread, and unit functions
+        #  fork again - a thread-holding parent is how forked children deadlock)
         try:
             mod, fn = job["fn"].split(":")
             f = getattr(importlib.import_module(mod), fn)
@@ -127,7 +128,6 @@ def _run_child(jobs, wfd):
             data = json.dumps({"uid": job.get("uid"),
                                "harness_error": "unserialisable result: " + traceback.format_exc()[-2000:]}).encode()
         signal.alarm(0)
-        faulthandler.cancel_dump_traceback_later()
         _write_all(wfd, data + b"\n")
     os.close(wfd)
     os._exit(0)
